@@ -55,6 +55,13 @@ func NewBuilderCase(g *Gen, id int) *Case {
 		}
 		twice = r.Intn(2)
 	}
+	defReq := -1
+	if twice < 0 && r.P(15) {
+		if n < 2 {
+			n = 2
+		}
+		defReq = r.Intn(2)
+	}
 	for k := 0; k < n; k++ {
 		c := r.Intn(100)
 		forcedOpts := -1 // 1: options forced, 0: no options
@@ -63,6 +70,13 @@ func NewBuilderCase(g *Gen, id int) *Case {
 			forcedOpts = 0
 			if (k == 0) == (twice == 0) {
 				forcedOpts = 1
+			}
+		}
+		if defReq >= 0 && (k == 0 || k == n-1) {
+			// Default and Required on one schema, in either order: an absent value takes the Default
+			c = 70
+			if (k == 0) == (defReq == 0) {
+				c = 80 // Default
 			}
 		}
 		switch {
